@@ -518,6 +518,85 @@ fn framing_unit(maxlen: usize) -> Unit {
     })
 }
 
+/// Large backlogs behind the send worker: the client starts reading only after everything was emitted.
+fn backlog_unit() -> Unit {
+    let configs: Vec<(usize, usize)> = vec![(20000, 8), (3000, 100), (700, 1000), (150, 5000), (40, 70000), (9, 300000)];
+    let dom = format!("backlogs: for each of {:?} (messages, bytes per message) all messages are emitted back to back through the real Socket::connect send worker while the client does not read; then the client reads everything: every message must arrive exactly once, in emission order (texts carry their index and contain newline / backslash / multi-byte characters)", configs);
+    Unit::new("backlog-through-real-workers", configs.len() as u64, &dom, move |ctx, chunk| {
+        let (n, size) = configs[chunk as usize];
+        let (sock, mut stream) = match connect_pair(1 + chunk) {
+            Some(x) => x,
+            None => {
+                ctx.machinery("could not establish a loopback connection".into());
+                return;
+            }
+        };
+        let _ = stream.set_read_timeout(Some(std::time::Duration::from_secs(20)));
+        let text_of = |i: usize| -> String {
+            let mut t = format!("{}:", i);
+            let filler = ["x", "\\", "\n", "é", "💡", " "];
+            let mut k = i;
+            while t.len() < size {
+                t.push_str(match filler[k % filler.len()] {
+                    "\\" => "\\",
+                    "\n" => "\n",
+                    o => o,
+                });
+                k += 1;
+            }
+            t
+        };
+        let want: Vec<String> = (0..n).map(text_of).chain(std::iter::once("END-OF-BACKLOG".to_string())).collect();
+        for t in want.iter() {
+            if sock.send_message(t).is_err() {
+                ctx.custom_violation("c18", "send_message failed".into(), json!({"backlog": [n, size]}), json!(null), json!(null));
+                return;
+            }
+        }
+        // only now start reading
+        std::thread::sleep(std::time::Duration::from_millis(30));
+        let mut buf: Vec<u8> = Vec::new();
+        let mut tmp = vec![0u8; 1 << 20];
+        let needle = b"END-OF-BACKLOG\n";
+        let deadline = std::time::Instant::now() + std::time::Duration::from_secs(60);
+        loop {
+            match stream.read(&mut tmp) {
+                Ok(0) => break,
+                Ok(k) => {
+                    buf.extend_from_slice(&tmp[..k]);
+                    if buf.len() >= needle.len() && &buf[buf.len() - needle.len()..] == needle {
+                        break;
+                    }
+                }
+                Err(_) => break,
+            }
+            if std::time::Instant::now() > deadline {
+                break;
+            }
+        }
+        let wire = String::from_utf8_lossy(&buf).to_string();
+        let mut lines: Vec<&str> = wire.split('\n').collect();
+        if lines.last() == Some(&"") {
+            lines.pop();
+        }
+        let got: Vec<String> = lines.iter().map(|l| unescape(l)).collect();
+        ctx.st.cases += want.len() as u64;
+        ctx.st.nontrivial += want.len() as u64;
+        if got != want {
+            let k = got.iter().zip(want.iter()).position(|(a, b)| a != b).unwrap_or(got.len().min(want.len()));
+            let show = |v: Option<&String>| v.map(|s| s.chars().take(40).collect::<String>());
+            ctx.custom_violation(
+                "c18",
+                format!("backlog of {} messages of {} bytes: message {} was {:?}..., the client recovered {:?}... ({} lines on the wire for {} messages)", n, size, k, show(want.get(k)), show(got.get(k)), got.len(), want.len()),
+                json!({"backlog": [n, size]}),
+                json!(null),
+                json!(null),
+            );
+        }
+        drop(sock);
+    })
+}
+
 pub fn c18(tier: Tier, _seed: u64) -> Prop {
     let mut units = Vec::new();
     let thorough = tier == Tier::Thorough;
@@ -532,6 +611,7 @@ pub fn c18(tier: Tier, _seed: u64) -> Prop {
         units.push(seq_unit("lines-small/len7", &SMALL, 7));
     }
     units.push(framing_unit(if thorough { 5 } else { 4 }));
+    units.push(backlog_unit());
     units.push(super::realbin::c18_unit());
     Prop {
         id: "C18",
@@ -559,7 +639,7 @@ pub fn c18(tier: Tier, _seed: u64) -> Prop {
 
 pub fn replay_c18(case: &Value) -> bool {
     let isa = Isa::new();
-    if case["framing"].is_string() {
+    if case["framing"].is_string() || case["backlog"].is_array() {
         println!("framing counterexamples are re-checked by re-running the check (they need the TCP rig)");
         return false;
     }
